@@ -90,6 +90,7 @@ def fidText : FileId → String
   | .lock => "lock" | .settings => "settings" | .settingsTmp => "settings.tmp"
   | .index => "index" | .indexTmp => "index.tmp"
   | .seg i => s!"seg:{i}" | .cas h => s!"cas:{toHexString h}" | .staging n => s!"staging:{n}"
+  | .stray p => "path:cas/" ++ "/".intercalate (p.map asciiString)
 
 def parseFid (s : String) : Option FileId :=
   match s with
@@ -122,8 +123,11 @@ def showTrace (evs : List Ev) : String :=
 def showDump (d : Disk) : String :=
   let f (id : FileId) := match d.get id with | some x => digest x.data | none => "-"
   let segs := (segIds d).map (fun i => s!"{i}:{f (.seg i)}")
-  let cas := ((casFiles d).toArray.qsort (fun a b => bytesLt a.1 b.1)).toList.map
-    (fun (h, x) => s!"{toHexString h}:{digest x.data}")
+  let strays := d.files.filterMap (fun (fx : FileId × File) => match fx.1 with
+    | .stray p => some ("path:" ++ "/".intercalate (p.map asciiString) ++ ":" ++ digest fx.2.data)
+    | _ => none)
+  let blobs := (casFiles d).map (fun (hx : Bytes × File) => s!"{toHexString hx.1}:{digest hx.2.data}")
+  let cas := ((blobs ++ strays).toArray.qsort (· < ·)).toList
   let tmp := (if d.has .indexTmp then "1" else "0") ++ (if d.has .settingsTmp then "1" else "0")
   s!"index={f .index} segs={showList id segs} cas={showList id cas} staging={(stagingFiles d).length} settings={f .settings} tmp={tmp}"
 
@@ -182,7 +186,7 @@ def storeStep (w : World) (toks : List String) : Option (World × String) :=
     | .ok (m, sc) =>
       let (w', o) := w.exec evs (fun w => { w with handle := some m, scan := some sc })
       some (w', withOutcome armed o (if w.cfg.scan then
-        s!"ok orphans={sc.orphaned.length} missing={sc.missing.length} corrupted={sc.corrupted.length} staging={sc.staging.length} total={sc.total}"
+        s!"ok orphans={sc.orphaned.length} missing={sc.missing.length} corrupted={sc.corrupted.length} staging={sc.staging.length} total={sc.total} invalid={sc.invalid.length}"
         else "ok noscan"))
     | .error e =>
       let (w', o) := w.exec evs id
@@ -365,8 +369,9 @@ def storeStep (w : World) (toks : List String) : Option (World × String) :=
     match w.handle, w.scan with
     | some m, some sc =>
       let (evs, del, skip, st) := deleteOrphansScript m sc w.disk
+      let ninv := (sc.invalid.filter (fun p => w.disk.has (.stray p))).length
       let (w', o) := w.exec evs id
-      some (w', withOutcome armed o s!"deleted={del} skipped={skip} invalid=0 staging={st} errors=0")
+      some (w', withOutcome armed o s!"deleted={del} skipped={skip} invalid={ninv} staging={st} errors=0")
     | _, _ => some (w, "nostats")
   | ["traceset"] =>
     let l := (w.trace.filterMap evText).toArray.qsort (· < ·) |>.toList
@@ -380,6 +385,36 @@ def storeStep (w : World) (toks : List String) : Option (World × String) :=
     let d := { w.disk with files := fset w.disk.files (.cas h) ⟨c, c.length⟩,
                            dirs := w.disk.dirs ++ dirs.filter (fun p => !w.disk.dirs.contains p) }
     pure ({ w with disk := d }, "ok")
+  | ["plantpath", path, c] => do
+    let comps ← (path.splitOn "/").mapM parseHex
+    let c ← parseHex c
+    let fid := match fromCanonicalPath comps with
+      | some h => FileId.cas h
+      | none => FileId.stray comps
+    let dirs := (List.range (comps.length - 1)).map (fun i => asciiBytes "cas" :: comps.take (i + 1))
+    let d := { w.disk with files := fset w.disk.files fid ⟨c, c.length⟩,
+                           dirs := w.disk.dirs ++ (([asciiBytes "cas"] :: dirs).filter (fun p => !w.disk.dirs.contains p)) }
+    pure ({ w with disk := d }, "ok")
+  | ["rmblob", h] => do
+    let h ← parseHex h
+    pure ({ w with disk := { w.disk with files := fdel w.disk.files (.cas h) } }, "ok")
+  | ["setblob", h, c] => do
+    let h ← parseHex h
+    let c ← parseHex c
+    pure ({ w with disk := { w.disk with files := fset w.disk.files (.cas h) ⟨c, c.length⟩ } }, "ok")
+  | ["plantstaging", c] => do
+    let c ← parseHex c
+    let n := w.stagingCtr
+    pure ({ w with stagingCtr := n + 1,
+                   disk := { w.disk with files := fset w.disk.files (.staging n) ⟨c, c.length⟩,
+                                         dirs := if w.disk.dirs.contains [asciiBytes "staging"] then w.disk.dirs else w.disk.dirs ++ [[asciiBytes "staging"]] } }, "ok")
+  | ["orphans"] =>
+    match w.scan with
+    | some sc =>
+      let srt (l : List Bytes) := showList toHexString ((l.toArray.qsort (fun a b => bytesLt a b)).toList)
+      let inv := (sc.invalid.map (fun p => "cas/" ++ "/".intercalate (p.map asciiString))).toArray.qsort (· < ·) |>.toList
+      some (w, s!"orphaned={srt sc.orphaned} missing={srt sc.missing} corrupted={srt sc.corrupted} invalid={showList id inv} staging={sc.staging.length} total={sc.total}")
+    | none => some (w, "nostats")
   | ["orphan_order"] =>
     match w.scan with
     | some sc => some (w, showList toHexString sc.orphaned)
